@@ -28,6 +28,8 @@ def messages(rng):
     yield raw, raw
     yield raw.hex(), raw                       # hexadecimal notation
     yield '0x' + raw.hex(), raw
+    yield raw.hex().upper(), raw               # upper- and mixed-case hexadecimal notation denote the same bytes
+    yield '0x' + ''.join(c.upper() if i % 3 == 0 else c for i, c in enumerate(raw.hex())), raw
     yield b'', b''
     s = rng.choice(['hello world', 'not hex!', 'zz', 'Tezos Signed Message: x', 'abc'])   # odd length / non-hex: ascii
     yield s, s.encode('ascii')
@@ -93,9 +95,9 @@ def judge_key(ctx, rng, curve, secret, light=False):
     prefix = curve.decode() + 'sig'
     msgs = list(messages(rng))
     if light:
-        msgs = [msgs[0], msgs[1], msgs[4]]
+        msgs = [msgs[0], msgs[1], msgs[3], msgs[6]]
     for mi, (m_api, m_bytes) in enumerate(msgs):
-        mkind = type(m_api).__name__ + ('-hex' if isinstance(m_api, str) and mi in (1, 2) else '')
+        mkind = type(m_api).__name__ + ('-hex' if isinstance(m_api, str) and m_bytes.hex() in m_api.lower() and m_bytes else '')
         for generic in (False, True):
             case = dict(base, message=m_api.hex() if isinstance(m_api, bytes) else m_api, message_is_bytes=isinstance(m_api, bytes), generic=generic)
             ctx.count('sign_calls')
@@ -198,6 +200,31 @@ def cross_curve(ctx, rng):
                 ctx.violation('C07|CHECK_SIGNATURE-accepts-under-different-key|cross-curve', '', {'curve': c1.decode(), 'other': c2.decode()})
 
 
+def bulk_sign(ctx, rng, curve, n):
+    """Many short messages under one key: signatures whose r or s has leading zero bytes occur once in 256 each."""
+    from pytezos.crypto.key import Key
+    secret = gen_secret(rng, curve)
+    key = Key.from_secret_exponent(secret, curve)
+    pub = key.public_point
+    base = rng.getrandbits(32)
+    for i in range(n):
+        m = b'message %d' % (base + i)
+        ctx.count('bulk_sign_calls')
+        ctx.case((CNAME[curve], secret, m), nontrivial=True)
+        case = {'curve': curve.decode(), 'secret': secret.hex(), 'message': m.hex(), 'message_is_bytes': True, 'generic': False}
+        try:
+            sig = key.sign(m)
+            raw = B.decode_check(sig)[len([k for k in B.KINDS if sig.startswith(k[0]) and len(sig) == k[1]][0][2]):]
+        except Exception as e:
+            ctx.violation('C07|sign-raises|%s|bulk' % CNAME[curve], repr(e)[:300], case)
+            continue
+        short = len(raw) == 64 and (raw[0] == 0 or raw[32] == 0)
+        if short:
+            ctx.count('signatures_with_a_leading_zero_byte_in_r_or_s')
+        if not E.verify(curve, pub, raw, m):
+            ctx.violation('C07|independent-verifier-rejects|%s|%s' % (CNAME[curve], 'short-r-or-s' if short else 'bytes'), 'sig=%s' % sig, case)
+
+
 def run(ctx):
     rng = ctx.rng
     D.patch_parser_passthrough()
@@ -216,6 +243,9 @@ def run(ctx):
     for i in range(nbls):
         judge_key(ctx, rng, b'BL', gen_secret(rng, b'BL'), light=True)
     cross_curve(ctx, rng)
+    for curve in (b'p2', b'sp', b'ed'):
+        bulk_sign(ctx, rng, curve, ctx.pick(2400, 60000) // ctx.nshards if curve != b'ed' else 40)
+    ctx.require('bulk_sign_calls', 100)
     ctx.require('sign_calls', 20)
     ctx.require('independent_verifications' if not ctx.violations else 'sign_calls', 10)
     ctx.require('alterations', 20)
